@@ -145,6 +145,7 @@ class Hessian(ValueArray):
 
     def _tr_vecs(
         self,
+        _random_basis: bool = False,
     ) -> Tuple[
         np.ndarray, np.ndarray, np.ndarray, np.ndarray, np.ndarray, np.ndarray
     ]:
@@ -161,7 +162,7 @@ class Hessian(ValueArray):
         """
         n_atoms = len(self.atoms)
 
-        if n_atoms > 2:
+        if n_atoms > 2 and not _random_basis:
             # Get an orthonormal basis shifted from the principal rotation axis
             _rot_M = np.array(
                 [
@@ -191,7 +192,7 @@ class Hessian(ValueArray):
         if any(np.isclose(np.linalg.norm(t_i), 0.0) for t_i in (t4, t5, t6)):
             # Found linear dependency in rotation vectors, attempt to remove
             # by initialising different random orthogonal vectors
-            return self._tr_vecs()
+            return self._tr_vecs(_random_basis=True)
 
         return t1, t2, t3, np.array(t4), np.array(t5), np.array(t6)
 
